@@ -16,6 +16,7 @@ RULE = ("EXHAUSTIVE over: 8 bin types x threshold lists of length 1-3 in increas
 EXHAUSTIVE = "the order-relation space (bin type x threshold order x value relation x entry point) is enumerated completely"
 RULE += " " + 'Part fss: complementary events give the same fractions skill score, and the temporal score equals the window reference with the documented event.'
 RULE += " " + 'Rounds 9-10: populations of the conditional axes (-m obs|fcst -x obs|fcst -agg count), same-field and cross-field.'
+RULE += " " + 'Rounds 11-12: -m within with 0 as lowest threshold on data with exact hits; part window (scripts/window.py under the one-sided bin types with running totals equal to the threshold).'
 ASSUMPTIONS = ["closedness at an infinite end of an interval is immaterial"]
 REQUIRED_COUNTERS = ["within_checked", "apply_threshold_checked", "get_intervals_checked", "abcd_checked",
                      "cli_rows_checked", "contract:Interval.within", "partition_checked", "prob_checked"]
